@@ -862,7 +862,9 @@ fn scen_sweep(world: &World, f: &[&str], flags: &mut Vec<String>) -> String {
     let mut replays = 0usize;
     for mask in 0u32..(1u32 << (n + 1)) {
         let mut store = world.provenance.clone();
-        for t in 0..=n {
+        // insertion order alternates (ascending / descending): add_checkpoint must keep the vector sorted
+        let order: Vec<usize> = if mask % 2 == 0 { (0..=n).collect() } else { (0..=n).rev().collect() };
+        for t in order {
             if mask & (1 << t) != 0 {
                 // alternate the source of the checkpoint state
                 let src = ['L', 'R', 'C'][(t + mask as usize) % 3];
